@@ -163,7 +163,7 @@ pub fn run(ctx: &mut Ctx) {
     }
     // R random
     ctx.stratum("R-random-asts", false);
-    let nr = ctx.tier.pick(30_000u64, 3_000_000u64);
+    let nr = ctx.tier.n(30_000, 3_000_000);
     for i in 0..nr {
         if ctx.take() {
             let mut r = Rng::for_case(ctx.seed, "C01-R", i);
